@@ -1,7 +1,8 @@
 (** C03 — A filespace never reaches outside its root, whatever path it is given.
     Statements only.  A stack of views is a chain of path-transforming layers over a root
     backend (Model/Views.v); [root_of c] is where the stack's own root lies in the backend. *)
-From GC Require Import Common.Base Model.Paths Model.Fs Model.Views Proofs.Paths Proofs.Fs Proofs.Views Proofs.NonInterf.
+From GC Require Import Common.Base Model.Paths Model.Fs Model.Views Proofs.Paths Proofs.Fs Proofs.Views Proofs.NonInterf
+  Model.ViewsCache Proofs.Clean Proofs.ViewsCache.
 
 (** Reduction never yields an empty, "." or ".." component: a successfully reduced path cannot
     name anything above the point it is resolved from. *)
@@ -96,6 +97,42 @@ Proof.
   split; [reflexivity|]. split; intros a x H; destruct a as [|n [|m a]]; simpl in H; inversion H; subst; try reflexivity;
     try (destruct a; discriminate).
 Qed.
+
+(** ** Stacks that contain write-back caches.
+    fscache.Cache does not reduce its arguments, it path.Clean's them (and Cache.Filespace(p)
+    hands the uncleaned [p] to fshelper.SubFS).  path.Clean of [X ++ "/" ++ canonical r]
+    followed by the reduction below it is [cred X ++ r]: whatever string the layers above a
+    cache produce, the canonical part of it survives the cleaning intact. *)
+Theorem C03_clean_concat : forall X r, good_path r = true ->
+  cred (X ++ SLASH :: join r) = match cred (X ++ [SLASH]) with Some y => Some (y ++ r) | None => None end.
+Proof. exact cred_prefix_join. Qed.
+Print Assumptions C03_clean_concat.
+
+(** Path level, caches included (any number of them, as long as no cache sits directly on
+    another): a raw argument is rejected, or it addresses [root ++ r] with [r] canonical. *)
+Theorem C03_resolve_confined_cache : forall nn c s p,
+  cache_ok c -> bases_ok c -> resolve nn c s = Some p ->
+  exists b r, root_of c = Some b /\ red_under c s = Some r /\ good_path r = true /\ p = b ++ r.
+Proof. exact resolve_confined_cache. Qed.
+Print Assumptions C03_resolve_confined_cache.
+
+(** ... and every stack the API can build with caches in it meets those side conditions. *)
+Theorem C03_api_cache_stacks_confined : forall ks c nn s p,
+  cbuild [] ks = Some c -> resolve nn c s = Some p ->
+  exists b r, root_of c = Some b /\ good_path r = true /\ p = b ++ r.
+Proof. exact cbuild_confined. Qed.
+Print Assumptions C03_api_cache_stacks_confined.
+
+(* child view of a cache over a child view; the climbing child base is clamped by path.Clean
+   only when rooted, and what is left still reduces below the view root or is rejected *)
+Example C03_ex_cache_stack :
+  exists c, cbuild [] [CK (KChild [97]); CKCache; CK (KChild [47;46;46;47;98])] = Some c /\
+            root_of c = Some [[97]; [98]] /\
+            resolve true c [120;47;46;46;47;121] = Some [[97]; [98]; [121]] /\
+            resolve true c [46;46;47;121] = None /\
+            (exists c2, cbuild [] [CK (KChild [97]); CKCache; CK (KChild [46;46;47;98])] = Some c2 /\
+                        root_of c2 = None /\ resolve true c2 [121] = None).
+Proof. eexists. vm_compute. repeat split. eexists. repeat split. Qed.
 
 (** Non-vacuity. *)
 Example C03_ex_stack :
